@@ -50,7 +50,7 @@ class TreeFind:
         fk = P.pick(rng, FILTERS)
         return {"op": "tree_find", "tree": tree, "root": rk, "r": idx(rng),
                 "limit": P.pick(rng, [None, None, 0, 1, 2, 3, 4, 5]), "filter": fk, "fa": idx(rng),
-                "via": gen_via(run, rng)}
+                "via": gen_via(run, rng), "related": tree == "section" and rk == "section" and rng.random() < 0.3}
 
     def do(self, run, o):
         tree, rk = o["tree"], o["root"]
@@ -75,6 +75,23 @@ class TreeFind:
             fk = "all"
         freal, fmodel = make_filter(fk, arg)
         rh = run.R(root, o.get("via", 0))
+        if o.get("related") and rk == "section":
+            # Section.find_related: the parent, the siblings, the section itself and its children that
+            # satisfy the filter, each once (the order is not judged)
+            r = run.call(lambda: rh.find_related(filtr=freal))
+            if r[0] == "exc":
+                run.violation("tree_find", "find_related", "raises:" + type(r[1]).__name__, repr(r[1])[:200])
+            got = sorted(x.id for x in r[1])
+            rel = [root] + list(root.sections)
+            par = root.parent_ if getattr(root.parent_, "kind", None) == "section" else None
+            if par is not None:
+                rel = [par] + [x for x in par.sections if x is not root] + rel
+            want = sorted(m.id for m in rel if fmodel(m))
+            if got != want:
+                run.violation("tree_find", "find_related", "dup" if len(set(got)) != len(got) else "set",
+                              "filter=%s got %d want %d: %r vs %r" % (fk, len(got), len(want), got[:6], want[:6]))
+            run.stats["tree_find:related" + (":nested" if par is not None else ":top")] += 1
+            return res(OK)
         fn = rh.find_sections if tree == "section" else rh.find_sources
         r = run.call(lambda: fn(filtr=freal, limit=limit) if limit is not None else fn(filtr=freal))
         if r[0] == "exc":
